@@ -47,7 +47,7 @@ def abs_value(v, memo=None, depth=0):
     if t is bytes:
         return ["builtins.bytes", v.hex()]
     if isinstance(v, np.generic):
-        return [tname(t), v.dtype.str, v.tobytes().hex()]
+        return [tname(t), v.dtype.str, _raw_bytes(v).hex()]
     if isinstance(v, type):
         return ["type", tname(v)]
     if isinstance(v, (types.FunctionType, types.BuiltinFunctionType, np.ufunc)):
@@ -73,7 +73,7 @@ def abs_value(v, memo=None, depth=0):
             # structured arrays (sklearn Tree nodes): alignment padding is uninitialised memory, compare the fields only
             raw = b"".join(np.ascontiguousarray(v[n]).tobytes() for n in v.dtype.names)
         else:
-            raw = np.ascontiguousarray(v).tobytes()
+            raw = _raw_bytes(v)
         return ["obj", me, tname(t), ["array", v.dtype.str, str(v.dtype.descr) if v.dtype.names else "", list(v.shape), order,
                                       raw.hex() if v.size < 4096 else hash(raw)]]
     if sp is not None and sp.issparse(v):
@@ -146,6 +146,16 @@ def abs_obj_state(v, memo, depth):
 # The protocol-0/1 RandomGeneratorNode layouts never stored the seed sequence: comparisons of values that went
 # through those layouts (C08 old-layout correspondence) switch this off for BOTH sides.
 GENERATOR_SEED_SEQ = True
+
+
+def _raw_bytes(a):
+    """the bytes of a contiguous array / numpy scalar that carry VALUE: x87 long doubles occupy 16 bytes of which only the
+    first 10 are the number, the rest is uninitialised padding (it differs between two copies of the same value)"""
+    a = np.ascontiguousarray(a)
+    b = a.tobytes()
+    if a.dtype.kind in "fc" and a.dtype.itemsize in (16, 32) and np.finfo(np.longdouble).nmant == 63 and a.dtype.char in "gG":
+        return b"".join(b[i:i + 10] for i in range(0, len(b), 16))
+    return b
 
 
 def fingerprint(v):
